@@ -280,6 +280,7 @@ DynamicSetMap(
 #endif
     {
 	nextlu = Glu->nextlu;
+	SLU_MT_VEV(VE_DYN_SETMAP, jcol, num, &Glu->nextlu);
 	map_in_sup[jcol] = nextlu;
 	new_next = nextlu + num;
 	if ( new_next > Glu->nzlumax ) {
